@@ -441,6 +441,7 @@ namespace vw
             g.mesh_holes = static_cast<int>(r.range(0, 2));
         }
         g.share_grid = r.chance(0.4) ? 1 : 0;
+        g.reuse_input = r.chance(0.5) ? 1 : 0;
         // status overrides
         if (r.chance(0.3))
         {
@@ -883,6 +884,7 @@ namespace vw
         std::vector<double> last_field;
         std::vector<double> eroded_field;  // surface after the last erode op (+ uplift), if any
         std::vector<std::set<std::size_t>> base_sets;  // base-level sets seen so far
+        arr_t persistent_in;                            // the caller's long-lived input array (reuse_input)
         Obs last_obs;
         std::vector<double> cur_exp(w.ops.size());
         std::vector<int> cur_method(w.ops.size()), cur_route(w.ops.size());
@@ -914,7 +916,20 @@ namespace vw
                 ++C["p.domain_skips"];
                 return;
             }
-            arr_t in = main.make_array(field);
+            // the caller's array: a new object per update, or (reuse_input) one long-lived object that is
+            // overwritten before each update, as a model time loop does
+            arr_t in_local;
+            if (gs.reuse_input)
+            {
+                if (persistent_in.size() != n)
+                    persistent_in = main.make_array(field);
+                else
+                    for (std::size_t i = 0; i < n; ++i)
+                        persistent_in.flat(i) = field[i];
+            }
+            else
+                in_local = main.make_array(field);
+            arr_t& in = gs.reuse_input ? persistent_in : in_local;
             arr_t in_copy = in;
             const std::size_t cache_before = main.grid->neighbors_indices_cache().cache_used();
             const arr_t& res = main.update(in);
@@ -932,6 +947,14 @@ namespace vw
                 }
             Obs obs = observe(*main.graph, &res, true);
             vsim::note(10, obs_digest(obs), static_cast<uint64_t>(opi));
+            // what update_routes returned must not be changed by the read-only calls made since (accumulate, basins)
+            for (std::size_t i = 0; i < n; ++i)
+                if (dbits(res.flat(i)) != dbits(main.last_result.flat(i)))
+                {
+                    out.violation("c09", "c09:returned_elevation_changed:" + sig, "the array returned by update_routes changed at node " + std::to_string(i)
+                                                                                      + " after accumulate() / basins() were called");
+                    break;
+                }
             if (!obs.sane)
                 out.violation(mode == MODE_C10 ? "c10" : "c09", "tables_insane:" + sig + ":" + gname, obs.insane);
 
@@ -1019,6 +1042,40 @@ namespace vw
                 }
                 if (state_changes >= 2)
                     out.nontrivial = true;
+            }
+            // the caller is free to change its own array after the call: elevation snapshots are copies
+            if (gs.reuse_input && !prefixes.empty() && mode == MODE_C16)
+            {
+                std::vector<std::vector<uint64_t>> before;
+                for (auto& p : prefixes)
+                {
+                    std::vector<uint64_t> v;
+                    if (p.elev)
+                    {
+                        const auto& es = main.graph->elevation_snapshot(p.name);
+                        for (std::size_t i = 0; i < n; ++i)
+                            v.push_back(dbits(es.flat(i)));
+                    }
+                    before.push_back(v);
+                }
+                for (std::size_t i = 0; i < n; ++i)
+                    persistent_in.flat(i) = -7.0 - static_cast<double>(i);
+                std::size_t k = 0;
+                for (auto& p : prefixes)
+                {
+                    if (p.elev)
+                    {
+                        const auto& es = main.graph->elevation_snapshot(p.name);
+                        for (std::size_t i = 0; i < n; ++i)
+                            if (dbits(es.flat(i)) != before[k][i])
+                            {
+                                out.violation("c16", "c16:elevation_snapshot_aliases_input", "elevation snapshot '" + p.name + "' changed when the caller overwrote its own input array");
+                                break;
+                            }
+                        ++C["p.elev_snapshot_checked_after_input_overwrite"];
+                    }
+                    ++k;
+                }
             }
             last_obs = obs;
             last_field = field;
@@ -1352,6 +1409,7 @@ namespace vw
                         }
                     }
                     KernelRun<graph_t> kr;
+                    kernel_accounting() = KernelAccounting();
                     kr.prepare(target, nthreads, static_cast<int>(h.b), static_cast<int>(h.c), static_cast<int>(h.d), salt);
                     kr.run(target);
                     ++C[nthreads > 1 ? "p.parallel_kernels" : "p.sequential_kernels"];
@@ -1381,18 +1439,33 @@ namespace vw
                             break;
                         }
                     // reference: sequential execution on the twin (C10) or on the prefix world (C16)
+                    {
+                        KernelAccounting& ka = kernel_accounting();
+                        if (ka.live != 0)
+                            out.violation(on_snap ? "c16" : "c10", "kernel:node_data_leak", "node data objects created and not freed by apply_kernel: " + std::to_string(ka.live));
+                        if (kr.kernel.node_data_init && ka.inits != ka.created)
+                            out.violation(on_snap ? "c16" : "c10", "kernel:node_data_init_count", "node_data_init called " + std::to_string(ka.inits) + " times for "
+                                                                                                      + std::to_string(ka.created) + " node data objects");
+                        ka = KernelAccounting();
+                    }
                     graph_t* ref = nullptr;
                     if (!on_snap && twin && twin->has_result)
                         ref = twin->graph.get();
+                    // no sequential twin available: the same graph, applied sequentially, is the reference
+                    if (!on_snap && !twin && nthreads > 1)
+                        ref = &target;
                     if (on_snap)
                         for (auto& p : prefixes)
                             if (p.name == h.name && p.graph && p.world && p.world->has_result)
                                 ref = p.world->graph.get();
+                    if (on_snap && !ref && nthreads > 1)
+                        ref = &target;
                     if (ref)
                     {
                         KernelRun<graph_t> rr;
                         rr.prepare(*ref, 1, 0, 0, static_cast<int>(h.d), salt);
                         rr.run(*ref);
+                        kernel_accounting() = KernelAccounting();
                         for (std::size_t i = 0; i < n; ++i)
                             if (dbits(rr.ctx.out[i]) != dbits(kr.ctx.out[i]))
                             {
